@@ -11,7 +11,7 @@
    interleaving.  Pool operations are atomic (H-ATOM), so a concurrent execution is a list. *)
 From Coq Require Import ZArith List Bool.
 From EC Require Import Lib.Outcome Lib.U64 Model.Handshake Model.Pool
-  Proofs.HandshakeProofs Proofs.PoolProofs.
+  Proofs.HandshakeProofs Proofs.PoolProofs Proofs.NodeProofs.
 Import ListNotations.
 Open Scope Z_scope.
 
@@ -211,3 +211,88 @@ Example C12_pool_nonvacuous :
             g_live g = [(105, 8); (100, 1)] /\ p_current (g_pool g) = [8; 1].
 Proof. eexists. split; [vm_compute; reflexivity|]. split; reflexivity. Qed.
 Print Assumptions C12_pool_nonvacuous.
+
+(* ---- a node with both directions (the executed glue: run_inbound_stream / run_outbound_stream) ----
+   Every sequence of: a peer connecting with any message, the node dialling any key with any
+   answer (or no answer), and either end closing — in any interleaving.  Never a panic.  Per
+   direction the live connections have pairwise different identities and are exactly the pool;
+   inbound extras stay within the quota; the outbound pool holds configured peers only; and a
+   connection is registered only on what its handshake certified. *)
+Theorem C12_node_both_directions : forall nc evs, 0 <= nc_in_limit nc <= u64_max ->
+  exists st, nrun nc (ninit nc) evs = Ok st /\
+    NoDup (map snd (g_live (n_in st))) /\ NoDup (map snd (g_live (n_out st))) /\
+    (forall k, In k (p_current (g_pool (n_in st))) <-> In k (map snd (g_live (n_in st)))) /\
+    (forall k, In k (p_current (g_pool (n_out st))) <-> In k (map snd (g_live (n_out st)))) /\
+    extras (g_pool (n_in st)) <= nc_in_limit nc /\
+    (forall k, In k (p_current (g_pool (n_out st))) -> In k (nc_out_allowed nc)) /\
+    (forall c k, In (c, k) (g_live (n_in st)) -> in_certified nc c k) /\
+    (forall c k, In (c, k) (g_live (n_out st)) -> out_certified nc c k).
+Proof. exact node_thm. Qed.
+Print Assumptions C12_node_both_directions.
+
+(* An outbound connection registered under key K was authenticated as K on its own session and
+   chain, K is the key the dialler expected, and K is a configured peer (static_outbound /
+   committee). *)
+Theorem C12_outbound_registered_authenticated : forall nc evs st c K,
+  0 <= nc_in_limit nc <= u64_max -> nrun nc (ninit nc) evs = Ok st ->
+  In (c, K) (g_live (n_out st)) ->
+  (exists expected h, decide (cfg_out nc expected) c (RMsg h) = Ok K /\ K = expected /\
+     m_sid h = c /\ m_gen h = nc_gen nc /\ m_key h = K /\ m_sig h = SSig K c) /\
+  In K (nc_out_allowed nc).
+Proof.
+  intros nc evs st c K Hl Hr Hin.
+  destruct (node_thm nc evs Hl) as (st' & Hr' & _ & _ & _ & Hiff & _ & Hal & _ & Hco).
+  rewrite Hr in Hr'. injection Hr' as <-. split.
+  - destruct (Hco c K Hin) as (p & r & Hd & Hp & (h & -> & H1 & H2 & H3 & H4)).
+    exists p, h. tauto.
+  - apply Hal, Hiff. apply in_map_iff. exists (c, K). tauto.
+Qed.
+Print Assumptions C12_outbound_registered_authenticated.
+
+Theorem C12_inbound_registered_authenticated : forall nc evs st c K,
+  0 <= nc_in_limit nc <= u64_max -> nrun nc (ninit nc) evs = Ok st ->
+  In (c, K) (g_live (n_in st)) ->
+  exists h, decide (cfg_in nc) c (RMsg h) = Ok K /\
+     m_sid h = c /\ m_gen h = nc_gen nc /\ m_key h = K /\ m_sig h = SSig K c.
+Proof.
+  intros nc evs st c K Hl Hr Hin.
+  destruct (node_thm nc evs Hl) as (st' & Hr' & _ & _ & _ & _ & _ & _ & Hci & _).
+  rewrite Hr in Hr'. injection Hr' as <-.
+  destruct (Hci c K Hin) as (r & Hd & (h & -> & H1 & H2 & H3 & H4)). exists h. tauto.
+Qed.
+Print Assumptions C12_inbound_registered_authenticated.
+
+(* The reconnect loops (Runner::run for gossip, maintain_connection for validators) and anybody
+   else dialling the same peer concurrently: never two registered connections to one peer in one
+   direction. *)
+Theorem C12_one_connection_per_peer : forall nc evs st c1 c2 k,
+  0 <= nc_in_limit nc <= u64_max -> nrun nc (ninit nc) evs = Ok st ->
+  (In (c1, k) (g_live (n_out st)) -> In (c2, k) (g_live (n_out st)) -> c1 = c2) /\
+  (In (c1, k) (g_live (n_in st)) -> In (c2, k) (g_live (n_in st)) -> c1 = c2).
+Proof. exact one_connection_per_peer_thm. Qed.
+Print Assumptions C12_one_connection_per_peer.
+
+(* the two directions do not interfere: an inbound connection changes nothing outbound and vice versa *)
+Theorem C12_directions_independent : forall nc st e st', nstep nc st e = Ok st' ->
+  (forall a, e = NConn a -> n_out st' = n_out st) /\
+  (forall p a, e = NDial p a -> n_in st' = n_in st).
+Proof. exact directions_independent_thm. Qed.
+Print Assumptions C12_directions_independent.
+
+(* computed: node 0 (gossip, static_outbound = [5], static_inbound = [5], quota 0).  It dials 5 and
+   5 answers: registered.  Dialled a second time concurrently: handshake passes, insert refused.
+   Dialling 5 but key 6 answers (validly signed): refused (unexpected peer).  Its own message
+   reflected: refused.  Dialling the non-configured 6: authenticated but refused by the pool.
+   Meanwhile 5 also connects inbound: registered in the inbound pool, outbound untouched. *)
+Example C12_node_nonvacuous :
+  let nc := {| nc_net := Gossip; nc_key := 0; nc_gen := 0; nc_in_allowed := [5]; nc_in_limit := 0;
+               nc_out_allowed := [5] |} in
+  let msg k c := AMsg {| a_base := None; a_sid := Some c; a_key := Some k; a_sig := Some (SSig k c);
+                         a_gen := Some 0; a_static := Some false |} in
+  exists st, nrun nc (ninit nc)
+      [NDial 5 (msg 5 0); NDial 5 (msg 5 1); NDial 5 (msg 6 2);
+       NDial 5 (AMsg {| a_base := Some 3%nat; a_sid := None; a_key := None; a_sig := None; a_gen := None; a_static := None |});
+       NDial 6 (msg 6 4); NConn (msg 5 5); NDialDead 5; NDisc 0; NDial 5 (msg 5 7)] = Ok st /\
+    g_live (n_out st) = [(7, 5)] /\ g_live (n_in st) = [(5, 5)].
+Proof. eexists. split; [vm_compute; reflexivity|]. split; reflexivity. Qed.
+Print Assumptions C12_node_nonvacuous.
